@@ -655,6 +655,10 @@ func (ndb *nodeDB) DeleteVersionsFrom(fromVersion int64) error {
 	// Delete the nodes for new format, the latest version first and the root of a version
 	// before its other nodes, so that an interruption leaves a consistent range of versions.
 	for version := latest; version >= fromVersion; version-- {
+		// The cached latest version follows the deletions: if one of them fails part-way, it must
+		// not keep naming a version that is already (being) deleted, or a later DeleteVersionsTo
+		// would accept the removal of the real latest version.
+		ndb.resetLatestVersion(version - 1)
 		if err = ndb.traverseRange(nodeKeyPrefixFormat.KeyInt64(version), nodeKeyPrefixFormat.KeyInt64(version+1), func(k, _ []byte) error {
 			return ndb.batch.Delete(k)
 		}); err != nil {
